@@ -130,6 +130,15 @@ class C19(Property):
         field, n_true = make_field(grid, fam, spec["image"])
         ctx.cls(fam, f"modes{modes}", f"refine:{refine}", f"width:{width}", f"thr:{spec['threshold']}", f"image:{spec['image']}")
         kwargs = dict(threshold=spec["threshold"], modes=modes, interface_width=width, refine=refine)
+        if (modes + len(spec["image"]) + len(fam)) % 3 == 0:
+            # the same request with numpy scalars, as they come out of array computations (e.g. `for modes in np.arange(...)`)
+            ctx.cls("numpy-scalar-arguments")
+            kwargs["modes"] = np.int64(modes)
+            kwargs["refine"] = np.bool_(refine)
+            if width is not None:
+                kwargs["interface_width"] = np.float64(width)
+            if not isinstance(kwargs["threshold"], str):
+                kwargs["threshold"] = np.float64(kwargs["threshold"])
         if modes > 0 and grid.dim == 1:
             try:
                 locate_droplets(field, **kwargs)
